@@ -3,7 +3,13 @@ import Tcs.Spec.CStep
 namespace Tcs
 
 /-! The transaction-atomic machine for HTTP-level requests (what `C03_reduction` reduces every
-    interleaving to), over the abstract storage, and the vocabulary of the linearizability theorem. -/
+    interleaving to), over the abstract storage, and the vocabulary of the linearizability theorem.
+
+    A request is a thread; thread `t` executes `evs[t]`. Every step of the machine is one
+    *transaction* of one thread (or its invocation / its response); which thread moves next is up to
+    an arbitrary schedule. All requests consist of one transaction, except the HTTP `AddVersion` for
+    a client the server has never seen, which consists of three: the attempt (answers "no such
+    client"), the creation of the client, the second attempt. -/
 
 /-- phases of one request -/
 inductive Phase where
@@ -15,7 +21,7 @@ inductive Phase where
   | finished (o : Out)
   deriving DecidableEq
 
-/-- ghost log of externally visible moments -/
+/-- ghost log of externally visible moments (`lin` = the request's last transaction) -/
 inductive Act where
   | invoke (t : Nat) | lin (t : Nat) | respond (t : Nat)
   deriving DecidableEq
@@ -30,26 +36,36 @@ def Ev.isHttp : Ev → Bool
   | .av .. | .gcv .. | .as .. | .gs .. => true
   | _ => false
 
+/-- does the request's transaction find "no such client" and go on to create it? (only the HTTP AddVersion does) -/
+def needsCreate (e : Ev) (a : AS) : Bool :=
+  match e with
+  | .av c .. => (a.st c).client.isNone
+  | _ => false
+
+/-- the final transaction of a request (for the HTTP AddVersion: `Server::add_version` on an existing client) -/
+def linStep (S : Sys) (e : Ev) (a : AS) : Out × AS :=
+  match e with
+  | .av c p seg n now => asStep S (.avLib c p seg n now) a
+  | e => asStep S e a
+
+/-- the client-creation transaction -/
+def createStep (S : Sys) (e : Ev) (a : AS) : AS :=
+  match e.client with
+  | some c => (asStep S (.create c) a).2
+  | none => a
+
 /-- one step of thread `t` (whose request is `evs[t]`); `none` = the thread cannot move -/
 def mstep (S : Sys) (evs : List Ev) (m : MState) (t : Nat) : Option MState :=
   match evs[t]?, m.ph[t]? with
-  | some _, some .idle => some { m with ph := m.ph.set t .ready, log := m.log ++ [.invoke t] }
-  | some (.av c p seg n now), some .ready =>
-    if (m.a.st c).client.isNone then some { m with ph := m.ph.set t .needCreate }          -- answers NoSuchClient, no effect
-    else
-      let r := asStep S (.avLib c p seg n now) m.a
-      some { a := r.2, ph := m.ph.set t (.answered r.1), log := m.log ++ [.lin t] }
-  | some (.av c _ _ _ _), some .needCreate =>
-    some { m with a := (asStep S (.create c) m.a).2, ph := m.ph.set t .retry }
-  | some (.av c p seg n now), some .retry =>
-    if (m.a.st c).client.isNone then some { m with ph := m.ph.set t .needCreate }
-    else
-      let r := asStep S (.avLib c p seg n now) m.a
-      some { a := r.2, ph := m.ph.set t (.answered r.1), log := m.log ++ [.lin t] }
-  | some e, some .ready =>
-    let r := asStep S e m.a
-    some { a := r.2, ph := m.ph.set t (.answered r.1), log := m.log ++ [.lin t] }
-  | some _, some (.answered o) => some { m with ph := m.ph.set t (.finished o), log := m.log ++ [.respond t] }
+  | some e, some ph =>
+    match ph with
+    | .idle => some { m with ph := m.ph.set t .ready, log := m.log ++ [.invoke t] }
+    | .ready | .retry =>
+      if needsCreate e m.a then some { m with ph := m.ph.set t .needCreate }
+      else some { a := (linStep S e m.a).2, ph := m.ph.set t (.answered (linStep S e m.a).1), log := m.log ++ [.lin t] }
+    | .needCreate => some { m with a := createStep S e m.a, ph := m.ph.set t .retry }
+    | .answered o => some { m with ph := m.ph.set t (.finished o), log := m.log ++ [.respond t] }
+    | .finished _ => none
   | _, _ => none
 
 def mrun (S : Sys) (evs : List Ev) (m : MState) : List Nat → MState
@@ -64,16 +80,15 @@ def minit (a : AS) (evs : List Ev) : MState := { a := a, ph := evs.map fun _ => 
 /-- the linearization order read off the log -/
 def linOrder (log : List Act) : List Nat := log.filterMap fun | .lin t => some t | _ => none
 
-/-- one-at-a-time execution of whole requests (`asStep` = the sequential specification of a request) -/
+/-- one-at-a-time execution of whole requests (`asStep` = the sequential specification of a request),
+    in the order given by a list of thread numbers -/
 def seqRun (S : Sys) (evs : List Ev) : List Nat → AS → AS × List (Nat × Out)
   | [], a => (a, [])
   | t :: ts, a =>
     match evs[t]? with
     | none => seqRun S evs ts a
     | some e =>
-      let r := asStep S e a
-      let q := seqRun S evs ts r.2
-      (q.1, (t, r.1) :: q.2)
+      ((seqRun S evs ts (asStep S e a).2).1, (t, (asStep S e a).1) :: (seqRun S evs ts (asStep S e a).2).2)
 
 /-- what an HTTP client can tell apart -/
 def sameResp (o o' : Out) : Prop := respond o = respond o'
@@ -88,6 +103,6 @@ def Phase.out? : Phase → Option Out | .answered o | .finished o => some o | _ 
 def allFinished (m : MState) : Prop := ∀ p ∈ m.ph, ∃ o, p = .finished o
 
 /-- `x` occurs before `y` in `l` -/
-def Before {α} [DecidableEq α] (l : List α) (x y : α) : Prop := ∃ l1 l2 l3, l = l1 ++ x :: l2 ++ y :: l3
+def Before {α} (l : List α) (x y : α) : Prop := ∃ l1 l2 l3, l = l1 ++ x :: l2 ++ y :: l3
 
 end Tcs
